@@ -141,7 +141,7 @@ def check(case, ctx):
         ref = ref_early = ref_full = Ref(spec)
     if "no-coalesce-value-failure" in ctx.flags:
         for st_ in case["steps"]:
-            if "o" in st_ and "coalesce-absorbed-value-failure" in ref.run(st_["o"]).labels:
+            if "o" in st_ and "absorbed-under-cache" in ref.run(st_["o"]).labels:
                 ctx.exclude("no-coalesce-value-failure")
                 ctx.done(case, False, ["excluded-K6"])
                 return
